@@ -17,10 +17,21 @@ from .values import Unsupported
 
 def load_source(reg):
     if reg.lang == "python":
-        return PySource(reg.file)
+        src = PySource(reg.file)
+        # CLIENT LEMMAS: small functions written in the contract file that only CALL functions under contract.  They are verified modularly like any
+        # other function -- against the callees' contracts, never their bodies -- so their postcondition is a lemma over those contracts (e.g. a round trip
+        # write -> read).  They are not code of /repo and are reported as lemmas.
+        import ast as _ast
+        for q, text in getattr(reg, "client_lemmas", {}).items():
+            src.functions[q] = _ast.parse(text).body[0]
+        return src
     if reg.lang == "cython":
         from .fe_cython import CySource
-        return CySource(reg.file)
+        src = CySource(reg.file)
+        import ast as _ast
+        for q, text in getattr(reg, "client_lemmas", {}).items():
+            src.functions[q] = _ast.parse(text).body[0]      # client lemmas are written in plain Python syntax
+        return src
     if reg.lang == "cpp":
         from .fe_clang import CppSource
         return CppSource(reg.file)
@@ -96,6 +107,12 @@ def run_canaries(reg, src):
         bad = [r for r in res if r["verdict"] != "discharged"]
         refuted = [r for r in res if r["verdict"].startswith("refuted")]
         out.append(dict(name=name, ok=bool(bad), refuted=len(refuted), not_discharged=len(bad), obligations=len(obs)))
+    for name, fn in getattr(reg, "lemma_canaries", []):
+        hyp, goals = fn()
+        for g, goal in goals.items():
+            res = backends.discharge([Obligation("%s/%s" % (name, g), "lemma", hyp, goal, name, [])], canary=True)
+            out.append(dict(name="%s/%s" % (name, g), ok=res[0]["verdict"] != "discharged", refuted=int(res[0]["verdict"].startswith("refuted")),
+                            not_discharged=int(res[0]["verdict"] != "discharged"), obligations=1))
     return out
 
 
